@@ -43,13 +43,14 @@ SecWeight(tr, d, k) == SafeDiv(SumTicker(tr, IF tr.fi THEN tr.H.notl ELSE tr.H.v
 Position(tr, d, k) == SumTicker(tr, tr.H.pos, d, k)
 HHI(tr, d) ==
   LET ks == SelectSeq([i \in 1..tr.NT |-> i], LAMBDA k : k \in Tickers(tr))
-  IN  RSumSeq([i \in 1..Len(ks) |-> LET w == SecWeight(tr, d, ks[i]) IN IF IsNaN(w) THEN Zero ELSE RMul(w, w)])
+  IN  RSumSeq([i \in 1..Len(ks) |-> LET w == SecWeight(tr, d, ks[i]) IN IF IsNaN(w) THEN Zero ELSE RMul(w, w)])   \* (OVF / INX propagate)
 Turnover(tr, d) ==
   LET ks  == SelectSeq([i \in 1..tr.NT |-> i], LAMBDA k : k \in Tickers(tr))
       o(k) == SumTicker(tr, tr.H.outlay, d, k)
       pos == RSumSeq([i \in 1..Len(ks) |-> IF RSign(o(ks[i])) = 1 THEN o(ks[i]) ELSE Zero])
       neg == RSumSeq([i \in 1..Len(ks) |-> IF RSign(o(ks[i])) = -1 THEN RNeg(o(ks[i])) ELSE Zero])
-  IN  SafeDiv(RMin(pos, neg), tr.H.value[d][1])
+  IN  IF \E i \in 1..Len(ks) : Bad(o(ks[i])) THEN OVF      \* an outlay off the decoding lattice: not judged
+      ELSE SafeDiv(RMin(pos, neg), tr.H.value[d][1])
 \* transactions: quantity = change of the aggregated position, price = execution price
 TradeQty(tr, d, k) == IF d = 1 THEN Position(tr, d, k) ELSE RSub(Position(tr, d, k), Position(tr, d - 1, k))
 TradePx(tr, d, k) ==
